@@ -63,6 +63,22 @@ def row(c, r):
     cfg = '(mkConv %s %s %s %s %s %s %s)' % (clist([csig(t) for t in k.tolist()]), copt(crow(c['bias']) if c['use_bias'] else None), cnat(c['strides'][0]), cnat(c['kernel_dilation'][0]),
                                              cnat(c['groups']), cnat(cin), cnat(k.shape[-1]))
     return '(' + ' && '.join('sig_beq (conv1d %s %s %s) %s' % (cfg, pad_term(c['padding']), csig(x[n].tolist()), csig(y[n].tolist())) for n in range(x.shape[0])) + ')'
+  if layer == 'conv_transpose' and len(c['kernel_size']) == 1 and c['padding'] in ('SAME', 'VALID', 'CIRCULAR'):
+    x = np.array(c['x'], dtype=np.int64)
+    cin = x.shape[-1]
+    x = x.reshape((-1,) + x.shape[-2:])
+    k = np.array(c['kernel'], dtype=np.int64)
+    if c['transpose_kernel']:
+      k = np.flip(k, axis=0).swapaxes(-1, -2)          # what lax.conv_transpose(transpose_kernel=True) convolves with
+    if 0 in g['shape']:
+      return None
+    y = np.array(g['data']).reshape((-1,) + tuple(g['shape'][-2:]))
+    if not is_int(y) or y.shape[1] == 0:
+      return None
+    cfg = '(mkConv %s %s %s %s 1%%nat %s %s)' % (clist([csig(t) for t in k.tolist()]), copt(crow(c['bias']) if c['use_bias'] else None), cnat(c['strides'][0]),
+                                                cnat((c.get('kernel_dilation') or [1])[0]), cnat(cin), cnat(k.shape[-1]))
+    pad = {'SAME': 'TSame', 'VALID': 'TValid', 'CIRCULAR': 'TCircular'}[c['padding']]
+    return '(' + ' && '.join('sig_beq (conv_transpose1d %s %s %s %s) %s' % (cfg, pad, cbool(c['transpose_kernel']), csig(x[n].tolist()), csig(y[n].tolist())) for n in range(x.shape[0])) + ')'
   if layer == 'embed':
     ids = np.array(c['ids']).reshape(-1)
     look = np.array(g['lookup']['data']).reshape(-1, g['lookup']['shape'][-1])
